@@ -494,8 +494,17 @@ theorem evalDelete_step {fuel : Nat} (ih : Spec fuel) : ∀ node st, Inv st →
   rintro _ s hIs _ ⟨_, _⟩
   split
   · refine Post.ite (fun _ => Post.pure hIs okObj_err) (fun _ => ?_)
-    refine Post.bind_read (runM_curEnv s) ?_
-    exact post_envDelete hIs hIs.cur _
+    extract_lets jp
+    have hjp : ∀ s', Inv s' → Post (jp ()) s' OkO := by
+      intro s' hIs'
+      unfold jp
+      refine Post.bind_read (runM_curEnv s') ?_
+      exact post_envDelete hIs' hIs'.cur _
+    refine Post.ite (fun _ => ?_) (fun _ => hjp s hIs)
+    refine Post.bind (Q := fun _ _ => True)
+      (Post.modify (hIs.update rfl hIs.cur rfl (fun c hc => by cases hc)) (Nat.le_refl _) trivial) ?_
+    intro _ s' hIs' _ _
+    exact hjp s' hIs'
   · exact Post.ite (fun _ => Post.pure hIs okObj_err) (fun _ => post_deleteMapEntry hIs _ _)
   · refine Post.bind (ih.eval _ _ hIs) ?_
     intro index s' hIs' _ hi
